@@ -24,7 +24,8 @@
 (***************************************************************************)
 EXTENDS Naturals, Sequences, FiniteSets, TLC, SequencesExt
 
-CONSTANTS Devs            \* set of deviation names in effect (normally {})
+CONSTANTS Devs,           \* set of deviation names in effect (normally {})
+          EosChoices      \* values of enableObjectSlots explored (subset of BOOLEAN)
 
 (* ---------------------------------------------------------------- items *)
 Site(kind, id)          == [k |-> "site", kind |-> kind, id |-> id]
@@ -76,6 +77,7 @@ Linearize(mod) == LinSeq(mod, <<>>, 1) \o <<Op("drain_module", <<>>, <<>>)>>
 
 (* ---------------------------------------------------------------- state *)
 VARIABLES mod,          \* the abstract module (the history)
+          eos,          \* the enableObjectSlots option of this run (part of the input)
           ops, pc,      \* its traversal, position
           frames,       \* stack of pending-declaration frames: [vars |-> Seq(name), consts |-> Seq(name), counter |-> Nat]
                         \*   top = the lists in `self`, below = the `outer_*` locals of the active visit_mut_stmts/arrow calls
@@ -86,8 +88,8 @@ VARIABLES mod,          \* the abstract module (the history)
           decls,        \* placed declarations: [name, scope, kind]
           uses,         \* uses of generated names: [name, scope, deferred]
           trace         \* the hook events this run produces (history variable; hidden from the state space by VIEW)
-allvars == <<mod, ops, pc, frames, left, leftStack, helper, imports, decls, uses, trace>>
-view == <<mod, pc, frames, left, leftStack, helper, imports, decls, uses>>
+allvars == <<mod, eos, ops, pc, frames, left, leftStack, helper, imports, decls, uses, trace>>
+view == <<mod, eos, pc, frames, left, leftStack, helper, imports, decls, uses>>
 
 Frame0 == [vars |-> <<>>, consts |-> <<>>, counter |-> 1]
 Top == frames[Len(frames)]
@@ -109,7 +111,7 @@ EnterStmts ==
   /\ ~Done /\ Cur.k = "enter_stmts"
   /\ frames' = IF Scoped THEN Append(frames, Frame0) ELSE frames
   /\ Log(Ev("enter_stmts", <<>>))
-  /\ Advance /\ UNCHANGED <<mod, ops, left, leftStack, helper, imports, decls, uses>>
+  /\ Advance /\ UNCHANGED <<mod, eos, ops, left, leftStack, helper, imports, decls, uses>>
 
 (* visit_mut_stmts, after the children: everything pending in this frame is declared at index 0 *)
 ExitStmts ==
@@ -122,13 +124,13 @@ ExitStmts ==
   /\ frames' = IF Scoped THEN SubSeq(frames, 1, Len(frames) - 1)
                ELSE SetTop([Top EXCEPT !.vars = <<>>, !.consts = <<>>,
                                        !.counter = IF Top.vars # <<>> THEN 1 ELSE @])
-  /\ Advance /\ UNCHANGED <<mod, ops, left, leftStack, helper, imports, uses>>
+  /\ Advance /\ UNCHANGED <<mod, eos, ops, left, leftStack, helper, imports, uses>>
 
 EnterArrow ==
   /\ ~Done /\ Cur.k = "enter_arrow"
   /\ frames' = IF Scoped THEN Append(frames, [Frame0 EXCEPT !.counter = IF Cur.block THEN Top.counter ELSE 1]) ELSE frames
   /\ Log(Ev("enter_arrow", [block |-> Cur.block]))
-  /\ Advance /\ UNCHANGED <<mod, ops, left, leftStack, helper, imports, decls, uses>>
+  /\ Advance /\ UNCHANGED <<mod, eos, ops, left, leftStack, helper, imports, decls, uses>>
 
 (* visit_mut_arrow_expr, after the children: an expression body becomes { decls; return e };   *)
 (* what is still pending at a block-bodied arrow goes back to the enclosing scope               *)
@@ -153,7 +155,7 @@ ExitArrow ==
           ELSE IF converts
                THEN SetTop([Top EXCEPT !.vars = <<>>, !.consts = <<>>, !.counter = IF Top.vars # <<>> THEN 1 ELSE @])
                ELSE frames
-  /\ Advance /\ UNCHANGED <<mod, ops, left, leftStack, helper, imports, uses>>
+  /\ Advance /\ UNCHANGED <<mod, eos, ops, left, leftStack, helper, imports, uses>>
 
 (* visit_mut_expr on `x = rhs`: the target is in effect while the right-hand side is visited *)
 AssignEnter ==
@@ -161,7 +163,7 @@ AssignEnter ==
   /\ IF FreshLeft THEN /\ leftStack' = Append(leftStack, left) /\ left' = Cur.x
                        /\ Log(Ev("assign_enter", [sym |-> Cur.x]))
      ELSE UNCHANGED <<left, leftStack>> /\ UNCHANGED trace
-  /\ Advance /\ UNCHANGED <<mod, ops, frames, helper, imports, decls, uses>>
+  /\ Advance /\ UNCHANGED <<mod, eos, ops, frames, helper, imports, decls, uses>>
 
 AssignExit ==
   /\ ~Done /\ Cur.k = "assign_exit"
@@ -169,7 +171,7 @@ AssignExit ==
                        /\ Log(Ev("assign_exit", [restored |-> leftStack[Len(leftStack)]]))
      ELSE /\ left' = Cur.x /\ UNCHANGED leftStack          \* old behaviour: recorded after the RHS, never cleared
           /\ Log(Ev("assign_seen", [sym |-> Cur.x]))
-  /\ Advance /\ UNCHANGED <<mod, ops, frames, helper, imports, decls, uses>>
+  /\ Advance /\ UNCHANGED <<mod, eos, ops, frames, helper, imports, decls, uses>>
 
 (* transform_jsx_element / transform_children for one JSX site *)
 SiteStep ==
@@ -180,7 +182,7 @@ SiteStep ==
        [] Cur.kind = "frag" ->
             /\ imports' = imports \cup {"createVNode", "Fragment"}
             /\ UNCHANGED <<frames, left, helper, uses, trace>>
-       [] Cur.kind = "call" ->           \* generate_unique_slot_ident, then build_iife takes the target
+       [] Cur.kind = "call" /\ eos ->    \* generate_unique_slot_ident, then build_iife takes the target
             LET n == SlotName(Top.counter) IN
             /\ frames' = SetTop([Top EXCEPT !.vars = Append(@, n), !.counter = @ + 1])
             /\ uses' = uses \cup {[name |-> n, scope |-> Cur.path, site |-> pc]}
@@ -188,9 +190,13 @@ SiteStep ==
             /\ imports' = imports \cup {"createVNode", "resolveComponent", "isVNode"}
             /\ left' = ""
             /\ trace' = trace \o <<Ev("gen_slot", [name |-> n, counter |-> Top.counter + 1]), Ev("iife_take", [left |-> left])>>
-       [] Cur.kind = "ident" ->          \* build_iife: capture `a` iff it is the target in effect
-            /\ helper' = TRUE
-            /\ imports' = imports \cup {"createVNode", "resolveComponent", "isVNode"}
+       [] Cur.kind = "call" /\ ~eos ->   \* object slots off: the children are wrapped as they are - no temporary, no helper,
+                                          \* build_iife is not reached (the target stays until its assignment ends)
+            /\ imports' = imports \cup {"createVNode", "resolveComponent"}
+            /\ UNCHANGED <<frames, left, helper, uses, trace>>
+       [] Cur.kind = "ident" ->          \* build_iife: capture `a` iff it is the target in effect; the helper only for the slot test
+            /\ helper' = (helper \/ eos)
+            /\ imports' = imports \cup {"createVNode", "resolveComponent"} \cup (IF eos THEN {"isVNode"} ELSE {})
             /\ left' = ""
             /\ IF left = "a"
                THEN /\ frames' = SetTop([Top EXCEPT !.consts = Append(@, "_a")])
@@ -198,7 +204,7 @@ SiteStep ==
                     /\ trace' = trace \o <<Ev("iife_take", [left |-> left]), Ev("capture", [name |-> "_a"])>>
                ELSE /\ UNCHANGED <<frames, uses>>
                     /\ trace' = Append(trace, Ev("iife_take", [left |-> left]))
-  /\ Advance /\ UNCHANGED <<mod, ops, leftStack, decls>>
+  /\ Advance /\ UNCHANGED <<mod, eos, ops, leftStack, decls>>
 
 (* visit_mut_module, after the children: whatever is pending is declared at the top of the module *)
 DrainModule ==
@@ -207,12 +213,12 @@ DrainModule ==
                     \cup {[name |-> Top.consts[i], scope |-> <<>>, kind |-> "const"] : i \in 1..Len(Top.consts)}
   /\ Log(Ev("drain_module", [consts |-> Top.consts, vars |-> Top.vars, slot_helper |-> helper]))
   /\ frames' = SetTop(Frame0)
-  /\ Advance /\ UNCHANGED <<mod, ops, left, leftStack, helper, imports, uses>>
+  /\ Advance /\ UNCHANGED <<mod, eos, ops, left, leftStack, helper, imports, uses>>
 
 Next == EnterStmts \/ ExitStmts \/ EnterArrow \/ ExitArrow \/ AssignEnter \/ AssignExit \/ SiteStep \/ DrainModule
 
 InitWith(Modules) ==
-  /\ mod \in Modules
+  /\ mod \in Modules /\ eos \in EosChoices
   /\ ops = Linearize(mod) /\ pc = 1
   /\ frames = <<Frame0>> /\ left = "" /\ leftStack = <<>>
   /\ helper = FALSE /\ imports = {} /\ decls = {} /\ uses = {} /\ trace = <<>>
@@ -232,7 +238,7 @@ NoDuplicateDecl == \A d1, d2 \in decls : (d1.name = d2.name /\ d1.scope = d2.sco
 NoLeak == Done => /\ Len(frames) = 1 /\ Top.vars = <<>> /\ Top.consts = <<>>
                   /\ leftStack = <<>>
 DeclsUsed == Done => \A d \in decls : \E u \in uses : u.name = d.name /\ IsPrefixPath(d.scope, u.scope)
-HelperIffNeeded == Done => (helper <=> \E i \in 1..Len(ops) : ops[i].k = "site" /\ ops[i].kind \in {"call", "ident"})
+HelperIffNeeded == Done => (helper <=> (eos /\ \E i \in 1..Len(ops) : ops[i].k = "site" /\ ops[i].kind \in {"call", "ident"}))
 FramesBalanced == Len(frames) >= 1 /\ (~Scoped => Len(frames) = 1)
 TargetFresh == FreshLeft => (left # "" => leftStack # <<>>)      \* a target is only ever in effect inside its assignment
 
